@@ -44,6 +44,16 @@ NewId(used) == CHOOSE i \in 1..(Cardinality(used) + 1) : i \notin used /\ \A j \
 X(n) == NodeById(n).x
 Y(n) == NodeById(n).y
 Cross(ax, ay, bx, by, cx, cy) == (bx - ax) * (cy - ay) - (by - ay) * (cx - ax)
+(* geometry with explicit position maps p : node id -> <<x, y>> (built once per evaluation: looking a node up by id in the
+   node list for every coordinate is what makes large recorded states slow) *)
+RECURSIVE ShoelaceP(_, _, _)
+ShoelaceP(ns, i, p) ==
+    IF i > Len(ns) THEN 0
+    ELSE LET a == p[ns[i]]  b == p[ns[(i % Len(ns)) + 1]] IN a[1] * b[2] - b[1] * a[2] + ShoelaceP(ns, i + 1, p)
+InsideOrOnP(q, ns, p) ==
+    \A i \in DOMAIN ns : LET a == p[ns[i]]  b == p[ns[(i % Len(ns)) + 1]] IN Cross(a[1], a[2], b[1], b[2], q[1], q[2]) >= 0
+OldPos == [n \in NodeIds |-> <<NodeById(n).x, NodeById(n).y>>]
+NewPos == [n \in Ids(nodes') |-> LET r == ById(nodes', n) IN <<r.x, r.y>>]
 RECURSIVE Shoelace(_, _)
 Shoelace(ns, i) ==      \* doubled signed area of the node cycle ns
     IF i > Len(ns) THEN 0
@@ -91,9 +101,10 @@ P4_ConnectionNodesAreTheSharedEdge ==
             /\ ConsecutiveIn(ColById(k.c1).nodes, k.n1, k.n2)
 NumLayersBelow(s) == Cardinality({i \in 2..Len(layers) : layers[i].bottom < s})
 P5_ColumnsWellFormed ==
+    LET p == OldPos IN
     \A i \in DOMAIN cols :
         /\ Len(cols[i].nodes) >= 3
-        /\ Range(cols[i].nodes) \subseteq NodeIds => Shoelace(cols[i].nodes, 1) > 0        \* counter-clockwise, positive area
+        /\ Range(cols[i].nodes) \subseteq NodeIds => ShoelaceP(cols[i].nodes, 1, p) > 0   \* counter-clockwise, positive area
         /\ cols[i].nl = NumLayersBelow(cols[i].surf)
 
 (* block and connection name lists (convention 0: 3-character column name + 2-character layer name) *)
@@ -138,30 +149,67 @@ Conserving == last'.op \in {"refine", "decompose_columns", "split_column", "refi
 (* every new column lies inside an old column with the same surface; the pieces of an old column add up to it *)
 Pieces(old) == {c \in ColIds' : \A n \in Range(ById(cols', c).nodes) :
                     InsideOrOn(ById(nodes', n).x, ById(nodes', n).y, ColById(old).nodes)}
-NewX(n) == ById(nodes', n).x
-NewY(n) == ById(nodes', n).y
-RECURSIVE NewShoelace(_, _)
-NewShoelace(ns, i) == IF i > Len(ns) THEN 0
-                      ELSE LET a == ns[i]  b == ns[(i % Len(ns)) + 1] IN NewX(a) * NewY(b) - NewX(b) * NewY(a) + NewShoelace(ns, i + 1)
-RECURSIVE SumNewArea2(_)
-SumNewArea2(S) == IF S = {} THEN 0 ELSE LET c == CHOOSE y \in S : TRUE IN NewShoelace(ById(cols', c).nodes, 1) + SumNewArea2(S \ {c})
-RECURSIVE SumNewVol2(_)
-SumNewVol2(S) == IF S = {} THEN 0
-                 ELSE LET c == CHOOSE y \in S : TRUE IN
-                      NewShoelace(ById(cols', c).nodes, 1) * (ById(cols', c).surf - layers'[Len(layers')].bottom) + SumNewVol2(S \ {c})
+RECURSIVE SumNewA(_, _)
+SumNewA(J, p) == IF J = {} THEN 0 ELSE LET j == CHOOSE y \in J : TRUE IN ShoelaceP(cols'[j].nodes, 1, p) + SumNewA(J \ {j}, p)
+RECURSIVE SumNewV(_, _)
+SumNewV(J, p) == IF J = {} THEN 0
+                 ELSE LET j == CHOOSE y \in J : TRUE IN
+                      ShoelaceP(cols'[j].nodes, 1, p) * (cols'[j].surf - layers'[Len(layers')].bottom) + SumNewV(J \ {j}, p)
+RECURSIVE SumOldA(_, _)
+SumOldA(I, p) == IF I = {} THEN 0 ELSE LET i == CHOOSE y \in I : TRUE IN ShoelaceP(cols[i].nodes, 1, p) + SumOldA(I \ {i}, p)
+RECURSIVE SumOldV(_, _)
+SumOldV(I, p) == IF I = {} THEN 0
+                 ELSE LET i == CHOOSE y \in I : TRUE IN
+                      ShoelaceP(cols[i].nodes, 1, p) * (cols[i].surf - layers[Len(layers)].bottom) + SumOldV(I \ {i}, p)
 (* (primed applications of recursive operators are avoided: TLC evaluates them very slowly) *)
-C11_AreaConserved == Conserving => SumNewArea2(Ids(cols')) = TotalArea2
-C11_VolumeConserved == Conserving => SumNewVol2(Ids(cols')) = TotalVol2
+C11_AreaConserved == Conserving => LET po == OldPos  pn == NewPos IN SumNewA(DOMAIN cols', pn) = SumOldA(DOMAIN cols, po)
+C11_VolumeConserved == Conserving => LET po == OldPos  pn == NewPos IN SumNewV(DOMAIN cols', pn) = SumOldV(DOMAIN cols, po)
+(* every new column lies inside an old column with the same surface; the pieces of an old column add up to it.
+   Only columns that changed are compared: gone = old columns that are not in the new list as they were, born likewise. *)
 C11_Tiling ==
     last'.op \in {"refine", "decompose_columns", "split_column"} =>
-        /\ \A c \in ColIds' : \E old \in ColIds : c \in Pieces(old) /\ ById(cols', c).surf = ColById(old).surf
-        /\ \A old \in ColIds : SumNewArea2(Pieces(old)) = Area2(old)
+        LET po == OldPos
+            pn == NewPos
+            gone == {i \in DOMAIN cols : ~\E j \in DOMAIN cols' : cols'[j] = cols[i]}
+            born == {j \in DOMAIN cols' : ~\E i \in DOMAIN cols : cols[i] = cols'[j]}
+            In(j, i) == \A k \in DOMAIN cols'[j].nodes : InsideOrOnP(pn[cols'[j].nodes[k]], cols[i].nodes, po)
+            (* sample points of the half-lattice, in doubled coordinates (2x+1, 2y+1): every one strictly inside an old
+               column and on no new edge lies strictly inside exactly one of its pieces - no overlap, no gap *)
+            Dbl(p, n) == <<2 * p[n][1], 2 * p[n][2]>>
+            StrictIn(q, ns, p) == \A k \in DOMAIN ns :
+                LET a == Dbl(p, ns[k])  b == Dbl(p, ns[(k % Len(ns)) + 1]) IN Cross(a[1], a[2], b[1], b[2], q[1], q[2]) > 0
+            OnEdge(q, ns, p) == \E k \in DOMAIN ns :
+                LET a == Dbl(p, ns[k])  b == Dbl(p, ns[(k % Len(ns)) + 1]) IN
+                Cross(a[1], a[2], b[1], b[2], q[1], q[2]) = 0 /\ (a[1] - q[1]) * (b[1] - q[1]) + (a[2] - q[2]) * (b[2] - q[2]) <= 0
+            Xs(i) == {po[cols[i].nodes[k]][1] : k \in DOMAIN cols[i].nodes}
+            Ys(i) == {po[cols[i].nodes[k]][2] : k \in DOMAIN cols[i].nodes}
+            MinS(S) == CHOOSE x \in S : \A y \in S : x <= y
+            MaxS(S) == CHOOSE x \in S : \A y \in S : x >= y
+            Samples(i) == {<<2 * x + 1, 2 * y + 1>> : x \in MinS(Xs(i))..(MaxS(Xs(i)) - 1), y \in MinS(Ys(i))..(MaxS(Ys(i)) - 1)}
+        IN /\ \A j \in born : \E i \in gone : In(j, i) /\ cols'[j].surf = cols[i].surf
+           /\ \A i \in gone : SumNewA({j \in born : In(j, i)}, pn) = ShoelaceP(cols[i].nodes, 1, po)
+           /\ \A i \in gone :
+                 LET pieces == {j \in born : In(j, i)} IN
+                 \A q \in Samples(i) :
+                    (StrictIn(q, cols[i].nodes, po) /\ ~\E j \in pieces : OnEdge(q, cols'[j].nodes, pn))
+                        => Cardinality({j \in pieces : StrictIn(q, cols'[j].nodes, pn)}) = 1
 (* conformity: no node lies in the open interior of an edge of a column that does not list it *)
+OnOpenSegmentP(q, a, b) ==
+    /\ Cross(a[1], a[2], b[1], b[2], q[1], q[2]) = 0
+    /\ (a[1] - q[1]) * (b[1] - q[1]) + (a[2] - q[2]) * (b[2] - q[2]) < 0
 Conforming ==
+    LET p == OldPos IN
     \A i \in DOMAIN cols : \A j \in DOMAIN cols[i].nodes :
-        LET a == cols[i].nodes[j]  b == cols[i].nodes[(j % Len(cols[i].nodes)) + 1] IN
-        \A n \in NodeIds : n \notin Range(cols[i].nodes) => ~OnOpenSegment(X(n), Y(n), a, b)
+        LET a == p[cols[i].nodes[j]]  b == p[cols[i].nodes[(j % Len(cols[i].nodes)) + 1]] IN
+        \A n \in NodeIds : n \notin Range(cols[i].nodes) => ~OnOpenSegmentP(p[n], a, b)
 C11_Conforming == last.promise => Conforming
+(* refining / decomposing / splitting a conforming mesh gives a conforming mesh *)
+ConformingNew ==
+    LET p == NewPos IN
+    \A i \in DOMAIN cols' : \A j \in DOMAIN cols'[i].nodes :
+        LET a == p[cols'[i].nodes[j]]  b == p[cols'[i].nodes[(j % Len(cols'[i].nodes)) + 1]] IN
+        \A n \in Ids(nodes') : n \notin Range(cols'[i].nodes) => ~OnOpenSegmentP(p[n], a, b)
+C11_ConformityPreserved == (last'.op \in {"refine", "decompose_columns", "split_column"} /\ Conforming) => ConformingNew
 
 (* ---- exactly specified edits *)
 Restrict(f, S) == [x \in S |-> f[x]]
